@@ -7,6 +7,7 @@
 import OrasModel.Proofs.OciDelete
 import OrasModel.Proofs.OciTags
 import OrasModel.Proofs.OciCascade
+import OrasModel.Proofs.OciGc
 import OrasModel.Gen.Facts
 namespace Oras.Props.C09
 open Oras Oras.OciSt
@@ -240,5 +241,89 @@ example :
     let s := (((((OciSt.empty.push c 0).1).push c 1).1.push c 2).1.tag 2 0 (some (.tag 5))).1
     (s.delete c true true 1 50).1.blobs = [2, 0] ∧ (s.delete c false true 1 50).1.blobs = [] := by
   decide
+
+/-- **`GC` never removes live content**: when `Store.GC` succeeds, every stored blob or
+    manifest reachable from a tagged manifest through stored manifests is still stored —
+    for the repaired and the shadowed subject walk, one referrer pass or the fixed point,
+    with or without the index save.  (`rk` witnesses acyclicity of the stored DAG; the fuel
+    of the depth-first indexing is above the rank of every tagged manifest.) -/
+theorem c09_gc_keeps_tagged_closure (c : OciCfg) (fixed repeatPass saveAfter : Bool) (st : OciSt)
+    (rk : Node → Nat) (hrk : GMem.RankOK (succOf c st.blobs) rk) (fuel : Nat)
+    (hf : ∀ e ∈ st.gcNamed, rk e.2.1 < fuel)
+    (hok : (st.gc c fixed repeatPass saveAfter fuel).2 = .ok ()) :
+    ∀ e ∈ st.gcNamed, ∀ m, GMem.ReachOf (succOf c st.blobs) e.2.1 m → m ∈ st.blobs →
+      m ∈ (st.gc c fixed repeatPass saveAfter fuel).1.blobs := by
+  intro e he m hreach hm
+  unfold gc at hok ⊢
+  cases hg : gcIndex c fixed repeatPass st fuel with
+  | error err => rw [hg] at hok; cases hok
+  | ok s =>
+    simp only
+    have hk := gcIndex_keeps c fixed repeatPass st s rk hrk fuel hf hg
+    have hs : ∃ ss, succOf c st.blobs m = some ss := by
+      unfold succOf
+      by_cases hman : c.isMan m = true
+      · exact ⟨c.succ m, by simp [hman, hm]⟩
+      · exact ⟨[], by simp [hman]⟩
+    obtain ⟨ss, hss⟩ := hs
+    have hnode := hk.2 e he m ss hreach hss
+    have hmem : m ∈ s.blobs.filter (fun b => s.graph.nodes b) :=
+      List.mem_filter.mpr ⟨hk.1 ▸ hm, hnode⟩
+    cases saveAfter with
+    | false => exact hmem
+    | true =>
+      simp only [if_true]
+      unfold autosave
+      split
+      · exact hmem
+      · exact hmem
+
+/-- … and what `GC` leaves is exactly the stored part of the rebuilt graph: a blob that is
+    not a node of the new index is removed. -/
+theorem c09_gc_sweeps_unindexed (c : OciCfg) (fixed repeatPass saveAfter : Bool) (st s : OciSt) (fuel : Nat)
+    (hg : gcIndex c fixed repeatPass st fuel = .ok s) :
+    ∀ b, b ∈ (st.gc c fixed repeatPass saveAfter fuel).1.blobs ↔ (b ∈ s.blobs ∧ s.graph.nodes b = true) := by
+  intro b
+  unfold gc
+  rw [hg]
+  simp only
+  cases saveAfter with
+  | false => exact List.mem_filter
+  | true =>
+    simp only [if_true]
+    unfold autosave
+    split <;> exact List.mem_filter
+
+/-- Non-vacuity: a tagged manifest 9 with layers 1 and 2 and an orphan blob 3 — the
+    hypotheses of `c09_gc_keeps_tagged_closure` hold (`GC` succeeds, rank 1 for the manifest)
+    and layer 1 is still stored afterwards. -/
+example :
+    let c : OciCfg := ⟨fun n => if n = 9 then [1, 2] else [], fun n => n == 9, fun _ => none⟩
+    let st : OciSt := { OciSt.empty with blobs := [9, 3, 2, 1], refs := [(.tag 0, 9, 0), (.dig 9, 9, 0)] }
+    (st.gc c true true true 5).2 = .ok () ∧ 1 ∈ (st.gc c true true true 5).1.blobs := by
+  intro c st
+  have hok : (st.gc c true true true 5).2 = .ok () := by
+    unfold gc gcIndex
+    simp [st, gcNamed, gcPass]
+  refine ⟨hok, ?_⟩
+  have hrk : GMem.RankOK (succOf c st.blobs) (fun n => if n = 9 then 1 else 0) := by
+    intro n ss hs k hk
+    unfold succOf at hs
+    by_cases h9 : n = 9
+    · subst h9
+      simp [c, st] at hs
+      subst hs
+      simp at hk
+      rcases hk with h | h <;> simp [h]
+    · have : c.isMan n = false := by simp [c, h9]
+      simp [this] at hs
+      subst hs
+      cases hk
+  refine c09_gc_keeps_tagged_closure c true true true st _ hrk 5 ?_ hok (.tag 0, 9, 0) (by simp [st, gcNamed]) 1 ?_ (by simp [st])
+  · intro e he
+    simp [st, gcNamed] at he
+    subst he
+    decide
+  · exact GMem.ReachOf.step (ss := [1, 2]) GMem.ReachOf.refl (by simp [succOf, c, st]) (by simp)
 
 end Oras.Props.C09
